@@ -352,6 +352,9 @@ const c11kindsModule = `module g { namespace "urn:g"; prefix g; revision 2020-01
  container t { leaf keep { type string; } }
  augment "/t" { if-feature f; leaf al { type string; } }
  container two { if-feature f; if-feature h; }
+ choice ch3 { case a3 { leaf a3l { type string; } } case b3 { if-feature f; leaf b3l { type string; } } case z3 { uses grp; container z3c { leaf zz { if-feature h; type string; } leaf zk { type string; } } } }
+ grouping grp2 { container gc { leaf in { type string; } } }
+ container ub { uses grp2 { augment "gc" { if-feature f; leaf ubl { type string; } } augment "gc" { if-feature "not f"; leaf ubn { type string; } } augment "gc" { leaf ubk { type string; } } } }
 }`
 
 // every guardable statement kind, feature on and off
@@ -374,6 +377,10 @@ func c11kinds(c *core.Ctx) {
 			expect := map[string]bool{ // path -> present
 				"/c": fOn, "/li": fOn, "/lf": fOn, "/ll": fOn, "/ch": fOn, "/ch2/k1": fOn, "/ch2/k2": true,
 				"/u/gl": fOn, "/r/gl2": true, "/r/gl3": true, "/t/keep": true, "/t/al": fOn, "/two": fOn && hOn,
+				// a case behind a feature-disabled case is still resolved: its uses is expanded, its own guards apply
+				"/ch3/a3/a3l": true, "/ch3/b3": fOn, "/ch3/z3/gl": true, "/ch3/z3/gl2": true, "/ch3/z3/z3c/zz": hOn, "/ch3/z3/z3c/zk": true,
+				// if-feature on an augment inside a uses
+				"/ub/gc/in": true, "/ub/gc/ubl": fOn, "/ub/gc/ubn": !fOn, "/ub/gc/ubk": true,
 			}
 			paths := make([]string, 0, len(expect))
 			for p := range expect {
@@ -430,6 +437,7 @@ const c11devBase = `module d { namespace "urn:d"; prefix d; revision 2020-01-01;
  }
  container one { uses g; }
  container two { uses g; }
+ container mm { leaf-list onlymin { type string; min-elements 1; } leaf-list onlymax { type string; max-elements 5; } list lmin { key k; min-elements 1; leaf k { type string; } } list lmax { key k; max-elements 5; leaf k { type string; } } }
  %s
 }`
 
@@ -463,6 +471,13 @@ func c11deviations(c *core.Ctx) {
 		{`deviation /two/gll { deviate replace { max-elements 9; } }`, "/two/gll", false, map[string]string{"max-elements": "9"}},
 		{`deviation /one/gb { deviate add { default "4"; } }`, "/one/gb", false, map[string]string{"default": "4"}},
 		{`deviation /one/gl { deviate not-supported; }`, "/one/gl", true, nil},
+		// add is legal for the property the target does not state yet, whatever else it states
+		{`deviation /mm/onlymin { deviate add { max-elements 4; } }`, "/mm/onlymin", false, map[string]string{"max-elements": "4"}},
+		{`deviation /mm/onlymax { deviate add { min-elements 2; } }`, "/mm/onlymax", false, map[string]string{"min-elements": "2"}},
+		{`deviation /mm/lmin { deviate add { max-elements 4; } }`, "/mm/lmin", false, map[string]string{"max-elements": "4"}},
+		{`deviation /mm/lmax { deviate add { min-elements 2; } }`, "/mm/lmax", false, map[string]string{"min-elements": "2"}},
+		{`deviation /mm/onlymax { deviate replace { max-elements 9; } }`, "/mm/onlymax", false, map[string]string{"max-elements": "9"}},
+		{`deviation /mm/lmin { deviate replace { min-elements 3; } }`, "/mm/lmin", false, map[string]string{"min-elements": "3"}},
 		{`deviation /top/c { deviate not-supported; }`, "/top/c", true, nil},
 		{`deviation /top/sub { deviate not-supported; }`, "/top/sub", true, nil},
 		{`deviation /op { deviate not-supported; }`, "/op", true, nil},
